@@ -625,8 +625,102 @@ pub fn c03(ctx: &mut Ctx, layer: &str) {
                     c03_input(c, r, fam, &s, true);
                 }
             }
+            // (f) the validator-boundary inputs of C13 and C20, so that the memory detectors of this
+            // check's layers (Miri, memcheck, ASan, std's precondition checks) see every comparison
+            // against an expected constant and every catalogue malformation, not only random ones
+            c03_catalogue(c, r, fam, w, n, tiny);
         }
     });
+}
+
+/// Protocol name x level matrix (complete CONNECT and cut right after the level byte) and one pass
+/// of the C20 malformation catalogue over the special hosts and a few random ones.
+fn c03_catalogue(c: &mut Ctx, r: &mut Rng, fam: Fam, w: usize, n: usize, tiny: bool) {
+    let names: [&[u8]; 16] = [
+        b"MQTT", b"MQIsdp", b"", b"M", b"MQ", b"MQT", b"MQTTT", b"MQIs", b"MQIsd", b"MQIsdpp", b"mqtt", b"MQTT\0", "MQT\u{e9}".as_bytes(), b"MQ\xffT", b"MQIsdP", b"MQTTMQTT",
+    ];
+    let levels: [u8; 12] = [0, 1, 2, 3, 4, 5, 6, 0x83, 0x84, 0x85, 0x7f, 0xff];
+    let mut idx = 0usize;
+    for name in names.iter() {
+        for level in levels.iter() {
+            if tiny && !(matches!(*level, 3 | 4 | 5 | 0x84) && matches!(name.len(), 0 | 3..=6 | 8) && name.iter().all(|b| b.is_ascii_uppercase() || b.is_ascii_lowercase())) {
+                // under Miri (~0.5 s per input): the pairs next to the three known ones only
+                continue;
+            }
+            idx += 1;
+            if idx % n != w {
+                continue;
+            }
+            let is5 = *level == 5 && *name == b"MQTT";
+            let rp = RP::Connect {
+                name: name.to_vec(),
+                level: *level,
+                clean: true,
+                keep_alive: 60,
+                client_id: b"c".to_vec(),
+                will: None,
+                username: None,
+                password: None,
+                props: Vec::new(),
+            };
+            let enc = crate::refenc::ref_bytes(if is5 { Fam::V5 } else { Fam::V3 }, &rp);
+            c.count("catalogue.protocol");
+            c.distinct(fnv_bytes(fam.n() as u64, &enc));
+            c03_input(c, r, fam, &enc, true);
+            // the stream ends right after the level byte (header 2 + name 2+len + level 1)
+            let cut = 2 + 2 + name.len() + 1;
+            if cut < enc.len() {
+                c03_input(c, r, fam, &enc[..cut], true);
+            }
+        }
+    }
+    // Under Miri building the catalogue for one host costs 5-100 s (every frame is cross-checked by the
+    // reference decoder), so shard `w` takes the hosts with index = w (mod n) from a list drawn from a
+    // PRNG stream common to all shards, and a random two dozen of their frames; the native layers give
+    // every worker its own forty hosts and run every frame.
+    let mut hosts = Vec::new();
+    if tiny {
+        let mut hr = Rng::for_worker(c.seed, "C03-catalogue-hosts", fam.n() as u64);
+        let mut all = crate::mon::grammar::special_hosts(&mut hr, fam);
+        while all.len() < 2 * n.max(1) {
+            let rp = gen::gen_any(&mut hr, fam);
+            if crate::refenc::ref_bytes(fam, &rp).len() <= 80 {
+                all.push(rp);
+            }
+        }
+        for (j, rp) in all.into_iter().enumerate() {
+            if j % n == w {
+                hosts.push(rp);
+            }
+        }
+    } else {
+        hosts = crate::mon::grammar::special_hosts(r, fam);
+        for _ in 0..40 {
+            hosts.push(gen::gen_any(r, fam));
+        }
+    }
+    let mut out = Vec::new();
+    for rp in &hosts {
+        let host = crate::mon::grammar::host_frame(r, fam, rp);
+        out.clear();
+        if tiny && host.bytes().len() > 160 {
+            continue;
+        }
+        crate::mon::grammar::malformations(r, fam, &host, &mut out);
+        if tiny && out.len() > 24 {
+            r.shuffle(&mut out);
+            out.truncate(24);
+        }
+        for m in &out {
+            if m.bytes.len() > 600 && tiny {
+                continue;
+            }
+            c.count("catalogue.malformation");
+            c.distinct(fnv_bytes(fam.n() as u64, &m.bytes));
+            // under Miri: poll + blocking + header only (the blocking decoder runs the async code)
+            c03_input(c, r, fam, &m.bytes, !tiny);
+        }
+    }
 }
 
 // ------------------------------------------------------------------------------------------
